@@ -1425,6 +1425,39 @@ fn eof_faults(sh: &mut Shard) {
     }
 }
 
+/// A SUB / FUNCTION implemented twice: Duplicate definition, at the second implementation's header.
+fn duplicate_bodies(sh: &mut Shard) {
+    if sh.shard != 2 % sh.nshards {
+        return;
+    }
+    for (kw, header, end) in [("SUB", "SUB ZDup (ZP%)", "END SUB"), ("FUNCTION", "FUNCTION ZDup% (ZP%)", "END FUNCTION")] {
+        for between in [false, true] {
+            for eol in [EolMode::Lf, EolMode::CrLf, EolMode::Cr] {
+                let mut lines: Vec<String> = vec!["ZK1% = 1".into(), "PRINT \"f\"; ZK1%".into(), header.into(), "  PRINT 1".into(), end.into()];
+                if between {
+                    lines.push("' between the two".into());
+                    lines.push("ZK2% = 2".into());
+                }
+                let row = lines.len() as u32 + 1;
+                lines.push(header.into());
+                lines.push("  PRINT 2".into());
+                lines.push(end.into());
+                let text = join_lines(&lines, eol, true);
+                sh.eval();
+                sh.journal(&text);
+                sh.class(&format!("duplicate-body:{}", kw));
+                sh.nontrivial(hash64(&(&text, "dup-body")));
+                let site = json!({"row": row, "col_start": 1, "col_end": header.chars().count()});
+                let inputs = json!({"kind": "static", "program": text, "fault": "dup-body:second-implementation", "fault_site": site, "layout": format!("duplicate body {} {}", kw, eol.name()), "expect": exp_json(&DUPD)});
+                let r = check_static(&text, "dup-body:second-implementation", &site, inputs);
+                if !sh.report(r) {
+                    return;
+                }
+            }
+        }
+    }
+}
+
 impl Prop for C11 {
     fn id(&self) -> &'static str {
         "C11"
@@ -1444,6 +1477,7 @@ impl Prop for C11 {
     fn run(&self, sh: &mut Shard) {
         matrix(sh);
         eof_faults(sh);
+        duplicate_bodies(sh);
         let cases = sh.share(sh.tier.pick(14_000, 500_000));
         sh.search(1, cases / 2, 60, 300, |sh, tape| one_case(sh, tape, false));
         sh.search(2, cases / 2, 80, 400, |sh, tape| one_case(sh, tape, true));
